@@ -152,7 +152,10 @@ def gen_cases(rng, tier):
         cases.append({"medium": "disk", "is_fd": is_fd, "verbose": True, "add": [], "sources": [f("a.dat", 1), e, f("b.dat", 2041), e, f("c.dat", 0), e, f("d.dat", 4081), f("e.dat", 255)]})
     for is_fd in (True, False):
         cases.append({"medium": "disk", "is_fd": is_fd, "verbose": True, "sources": [f("prog.bas", 11), f("v2+/prog.bas", 5000), f("other.dat", 300)], "add": [f("v3+/PROG.BAS", 2041), f("z.txt", 1)]})
-    return cases, {"random": n, "fixed": 10}
+    # names starting with characters that mean something elsewhere (a '*' marks deleted entries on some DOS tools): reported by create AND by list/extract
+    for is_fd in (True, False):
+        cases.append({"medium": "disk", "is_fd": is_fd, "verbose": is_fd, "sources": [f("*star.txt", 700), f("plain.dat", 300), f("?q.bas", 10), f(",c.bin", 2041)], "add": [f("*two.dat", 5)]})
+    return cases, {"random": n, "fixed": 12}
 
 
 def run_case(case, ctx):
